@@ -201,7 +201,7 @@ def run_inputs(ctx, proved, model, implrun, inputs, g, replaying=False):
     idx = {d: k for k, (lab, d) in enumerate(inputs) if lab == "keyword"}
     for kwd, ty in ([] if replaying else reference_keywords()):
         r = i_lex[idx[kwd.encode()]] or ""
-        if "(%s \"%s\" 1 1)" % (ty, kwd.encode().hex()) in r:
+        if "(%s \"%s\" 1 1 0)" % (ty, kwd.encode().hex()) in r:
             kw_ok += 1
         elif not first_fail(r):
             ctx.violation("keyword %r is not lexed as %s" % (kwd, ty), replay("keyword", kwd.encode(), impl=r, expected=ty))
